@@ -10,19 +10,19 @@ CLAIMED = {
     "C01": ("exploration",
             "Seeded search over registration histories, node behaviours, cancellation points and goroutine schedules of the Send fan-out; "
             "every run's node invocations are matched against the traversals a sequential reference model predicts (exact multiset when not "
-            "cancelled, union of chain prefixes when cancelled). Evidence, not proof: schedules are sampled.",
-            "Atomicity between instrumented yield points; recording nodes supplied by the harness; registry static during the Sends (concurrent "
-            "registration is C04/C07).",
+            "cancelled, union of chain prefixes when cancelled). A second scenario BUILDS the registry from concurrent tasks (registrations of fresh ids, threshold setters/getters on types first touched in that phase) and Sends after they all returned. Evidence, not proof: schedules are sampled.",
+            "Atomicity between instrumented yield points; recording nodes supplied by the harness; registry static during the Sends (registration "
+            "concurrent WITH a Send is C04/C07).",
             "deterministic simulation: seeded scheduler over instrumented goroutines/select/sync.Map + reference-model oracle", "4 C01"),
     "C02": ("exploration",
             "Same simulated fan-out with thresholds 0..n+1, shared sink ids, distinct error values and a canceller task placed by the scheduler at "
             "any step; Status and error are compared with what the recorded traversals allow (exact when not cancelled, sub-multiset when cancelled; "
-            "error iff a threshold is missed; context error wrapped when the dispatch ended early). Some runs add tasks that set the thresholds concurrently (also on an event type first touched during the run): the verdict must match one of the thresholds that could be in force.",
+            "error iff a threshold is missed; context error wrapped when the dispatch ended early, also for contexts ended with a cause). Some runs add tasks that set the thresholds concurrently (also on an event type first touched during the run): the verdict must match one of the thresholds that could be in force.",
             "Sends to an event type the Broker has never been told about are outside the iff-clause (documented error).",
             "deterministic simulation: seeded scheduler + cancellation fault at every protocol step + model oracle", "4 C02"),
     "C03": ("exploration",
             "Bounded liveness by simulation: cancellation before/at any step/never, node bodies stalled by the simulator; Send must return once its "
-            "context is done while nodes are frozen, every run must drain to zero tasks (goroutine accounting is exact because every `go` goes "
+            "context is done while nodes are frozen (histories include refused removals: a lock left held is reported with its site), every run must drain to zero tasks (goroutine accounting is exact because every `go` goes "
             "through the simulator), no panic, no deadlock. Some runs add nodes that call Send from Process and a task that re-sets the thresholds "
             "to their current values (lock traffic around the dispatch).",
             "A goroutine blocked for ever is detected as: no task schedulable, fake clock advanced by 72h, task still blocked.",
@@ -37,7 +37,7 @@ CLAIMED = {
     "C05": ("exploration",
             "Generated histories of (mostly malformed) registrations executed under the simulator; acceptance is compared with the statement's predicate "
             "(reference model); for every failing call the observable state (IsAnyPipelineRegistered, deliveries of probe Sends, removability of every "
-            "node on a replayed copy) is compared before/after; concurrently, Sends overlapping failing registrations are checked by linearizability. Registrations carry options of either kind (node policy on a pipeline call and vice versa must be ignored) and re-register the same node instance.",
+            "node on a replayed copy) is compared before/after; concurrently, Sends overlapping failing registrations are checked by linearizability. Registrations carry options of either kind (node policy on a pipeline call and vice versa must be ignored), two policy options in one call, re-register the same node instance, replace a node by one of another kind and re-register a pipeline with exactly its current node list.",
             "Pure input clauses (the predicate) are decided by seeded generation inside the simulated runs; the schedule-dependent clause is the "
             "concurrent observer.",
             "deterministic simulation: seeded histories + model oracle + concurrent observer (porcupine)", "4 C05"),
@@ -46,13 +46,13 @@ CLAIMED = {
             "RemoveNode} on 2 types x 3 pipeline ids x 4 node ids with Close faults; after every call the outcome and the Close counts of every node "
             "object are compared with a model in which 'in use' means 'listed by a registered pipeline'; at the end every id is probed on a replayed copy. "
             "Nodes are sometimes registered behind one or two NodeUnwrapper wrappers. In addition every call sequence up to length 4 (quick) / 5 "
-            "(thorough) over a reduced alphabet of 10 calls is executed (11 110 / 111 110 histories).",
+            "(thorough) over a reduced alphabet of 10 calls is executed (11 110 / 111 110 histories). A concurrent scenario lets 2-4 tasks remove / overwrite pipelines that share nodes (and remove nodes) at once; after they returned a probe Send shows what is still listed and exactly those ids must be refused by RemoveNode, all others removable or gone, each closed once.",
             "The statement's depth-7 exhaustive enumeration is only approached (depth 4/5 over a reduced alphabet); beyond that histories are sampled.",
             "deterministic simulation: seeded call histories + Close fault injection + reference model", "4 C06"),
     "C07": ("exploration",
             "Policy sequences (allow/deny/default/invalid) interleaved with removals against the model, probe Sends after calls; concurrently, "
             "overwriting registrations (each version has a unique marker node) race with Sends and the per-pipeline deliveries are checked for "
-            "linearizability (exactly one version, the new one after the overwrite returned) with porcupine. Same-instance re-registrations and options of the other kind are part of the sequences.",
+            "linearizability (exactly one version, the new one after the overwrite returned) with porcupine. Same-instance re-registrations, options of the other kind, two policy options in one call and kind-changing node overwrites are part of the sequences.",
             "sync.Map.Range is emulated at per-visit granularity (any behaviour its contract allows).",
             "deterministic simulation: seeded scheduler over sync.Map range/store + porcupine", "4 C07"),
     "C11": ("exploration",
@@ -88,14 +88,14 @@ CLAIMED = {
             "MaxFiles 0..3, TimestampOnlyOnRotate; every os call of the sink goes through a wrapper over the real file system that records each "
             "write(2) as ground truth. Oracle: each acknowledged event is exactly one whole write, no partial or stray writes, real-time order of "
             "acknowledgements equals file order, rotated names ascend in creation order, a missing file implies MaxFiles>0 and the remaining files are the newest, files renamed away keep "
-            "their content, every inode's content equals the recorded writes. The crash mode stops the scheduler at a tape-chosen step (process "
+            "their content, every inode's content equals the recorded writes, the sink deletes nothing but its own <base>-<timestamp><ext> files (a sibling's file that the prune glob matches is present). The crash mode stops the scheduler at a tape-chosen step (process "
             "kill: completed system calls persist) and evaluates the same oracle with in-flight calls allowed zero or one whole write; for one "
             "crash run in 40 the same schedule is replayed with the crash at EVERY scheduler step (fault enumeration for that schedule).",
             "Crash = process kill, not power loss (no fsync semantics).",
             "deterministic simulation: seeded scheduler + file-system seam with crash points + write-log oracle", "4 C08"),
     "C09": ("exploration",
             "Payloads are generated from the statement's shape grammar (class-tagged string/[]byte/[]string/[][]byte/wrapper-value fields behind "
-            "pointers, slices, maps incl. struct values, interface values, nested structs, Taggable maps and structs, untagged maps; top-level "
+            "pointers, slices, maps incl. struct values, interface values, nested structs, Taggable maps and structs (also Taggable structs that own Taggables as fields, two structs down and as slice elements, with tagged fields declared after them), untagged maps; top-level "
             "pointer, value, slice, map, *string, []string) with a unique canary in every leaf; overrides over {public,sensitive,secret} x "
             "{none,redact,encrypt,hmac}; wrapper present / absent / keyless / failing for a content-addressed subset of plaintexts. A lock-step "
             "walk of input and output checks each protected leaf (redacted, decrypts under the wrapper in force, or equals an independently computed "
@@ -107,7 +107,7 @@ CLAIMED = {
             "The C09 payload space: an independent deep copy built from the same recorded draws is compared with the input after Process (also after "
             "failures); output shape, public and non-string values, lengths and keys are compared in lock-step; all-none overrides must return the very "
             "same event (also when the payload carries event info or a rotation request). Schedule part: the filter runs as a non-root node of one pipeline while an observer node of a second pipeline and the Send "
-            "caller compare the event they hold with the snapshot at six scheduler-chosen instants.",
+            "caller compare the event they hold with the snapshot at six scheduler-chosen instants; 2-3 encrypt filters of as many pipelines work on ONE event under the race binary, where every race whose writer is the encrypt package is a modification of the shared original.",
             "copystructure is trusted per step (its internals are not interleaved).",
             "deterministic simulation: seeded scheduler interleaving an observer pipeline with the filter + snapshot oracle", "4 C10"),
     "C13": ("exploration",
@@ -131,7 +131,7 @@ CLAIMED = {
             "FileSinkModel after every step: a write rotates iff bytes-since-open >= MaxBytes>0 or age > MaxDuration>0 (age bounded by the harness's "
             "clock reads before/after the call; straddling cases are counted, not judged), never with both unset; active-file name, rotated names with "
             "strictly increasing timestamps in creation order, modes, directory creation, at most MaxFiles rotated files right after a rotation, "
-            "removals only inside the name space, decoy files survive, BytesWritten matches; the directory is removed and a pre-existing active file with another mode is present in some histories.",
+            "removals only inside the name space, decoy files survive (one of them matches the prune glob), BytesWritten matches; the directory is removed and a pre-existing active file with another mode is present in some histories.",
             "The fake clock starts at a 2026 epoch (19-digit UnixNano) so that lexicographic pruning order is the realistic one.",
             "deterministic simulation: fake clock with seeded ticks + disk seam + reference model", "4 C15"),
     "C16": ("exploration",
